@@ -161,7 +161,7 @@ static void pe_parse_rich_signature(PE* pe, uint64_t base_address)
   // To find the Rich marker we start at the NT header and work backwards, so
   // make sure we have at least enough data to get to the NT header.
   nthdr_offset = yr_le32toh(mz_header->e_lfanew);
-  if (nthdr_offset > pe->data_size + sizeof(uint32_t) || nthdr_offset < 4)
+  if (nthdr_offset > pe->data_size || nthdr_offset < 4)
     return;
 
   // Most files have the Rich header at offset 0x80, but that is not always
